@@ -292,5 +292,5 @@ def climb_type_tree(var_stack, curr_scope: Scope, obj_tree: dict):
         if var_obj is None:
             return None
     else:
-        raise KeyError
+        return None  # member chain deeper than the search bound
     return type_obj
